@@ -52,13 +52,14 @@ structure MState where
   cli : Bool := false                 -- client mode: a client connection exists
   cm : HttpConn.Msg := {}             -- its message state
   active : Bool := false              -- a transaction is waiting for response bytes
+  cbody : Bytes := []                 -- the request body attached to the client connection
 
 /-- a client connection after nni_http_set_host(conn, "h") -/
 def cliInit : HttpConn.Msg := { host := asc "h", reqHdrs := HttpConn.setHostHdr [] (asc "h") }
 
 /-- completion of the transaction over the bytes available, if it completes -/
 def cliProgress (s : MState) : MState × List String :=
-  match HttpCli.transact s.cm s.stream with
+  match HttpCli.transactAs HttpCli.cliResets HttpCli.readResHead s.cm s.stream with
   | .waiting =>
     if s.eof then ({ s with active := false, closed := true }, [s!"T rv={Err.econnshut}"]) else ({ s with active := true }, [])
   | .error rv => ({ s with active := false, closed := true }, [s!"T rv={rv}"])
@@ -104,15 +105,17 @@ def mkHandler (l : HLine) : Option Handler :=
 /-- client mode ops -/
 def cliStep (s : MState) (op : String) (args : List String) : MState × String :=
   match op, args with
-  | "txn", [m, u, b] =>
+  | "txn", m :: u :: b :: rest =>
     if s.active then (s, "txn busy") else
     match parseHex m, parseHex u, parseHex b with
     | some m, some u, some b =>
-      if s.closed then (s, s!"txn T rv={Err.eclosed}")
+      let keep := rest == ["1"]
+      let cm := HttpCli.prepare keep s.cm m u b
+      let body := HttpCli.prepareBody keep s.cbody b
+      if s.closed then ({ s with cm := cm, cbody := body }, s!"txn T rv={Err.eclosed}")
       else
-        let cm := HttpCli.prepare s.cm m u b
-        let (s2, evs) := cliProgress { s with cm := cm }
-        (s2, joinEv "txn" (s!"W {toHex (HttpCli.request cm b)}" :: evs))
+        let (s2, evs) := cliProgress { s with cm := cm, cbody := body }
+        (s2, joinEv "txn" (s!"W {toHex (HttpCli.requestOut HttpSrv.wrStrict cm body)}" :: evs))
     | _, _, _ => (s, "bad-op")
   | "rx", [hex] =>
     match parseHex hex with
@@ -134,7 +137,8 @@ def step (s : MState) (ws : List String) : MState × String :=
   match ws with
   | ["verbose"] => (s, "ok")
   | ["srv"] => ({ srv := some {} }, "srv rv=0")
-  | ["cli"] => ({ s with conn := false, cli := true, cm := cliInit, stream := [], active := false, closed := false, eof := false }, "cli ok")
+  | ["cli"] => ({ s with conn := false, cli := true, cm := cliInit, cbody := [], stream := [], active := false, closed := false, eof := false },
+                "cli ok")
   | "txn" :: args => if s.cli then cliStep s "txn" args else (s, "no-cli")
   | op :: args =>
     if s.cli && (op == "rx" || op == "eof") then cliStep s op args else
@@ -198,6 +202,8 @@ structure SState where
   cli : Bool := false
   method : Bytes := []                 -- of the transaction in progress
   active : Bool := false
+  vers : Bytes := Nng.HttpSrv.asc "HTTP/1.1"   -- the version the next kept request line carries (see `request`)
+  cbody : Bytes := []                  -- the body of the request the application keeps
 
 def joinEv (op : String) (evs : List String) : String := if evs.isEmpty then s!"{op} -" else s!"{op} " ++ " ; ".intercalate evs
 
@@ -206,19 +212,25 @@ def cliProgress (s : SState) : SState × List String :=
   | .waiting =>
     if s.eof then ({ s with active := false, closed := true }, [s!"T rv={Err.econnshut}"]) else ({ s with active := true }, [])
   | .error rv => ({ s with active := false, closed := true }, [s!"T rv={rv}"])
-  | .ok st body used => ({ s with active := false, stream := s.stream.drop used }, [s!"T rv=0 st={st} b={hexOr body}"])
+  | .ok st body used vers => ({ s with active := false, stream := s.stream.drop used, vers := vers }, [s!"T rv=0 st={st} b={hexOr body}"])
 
 def cliStep (s : SState) (op : String) (args : List String) : SState × String :=
   match op, args with
-  | "txn", [m, u, b] =>
+  | "txn", m :: u :: b :: rest =>
     if s.active then (s, "txn busy") else
     match parseHex m, parseHex u, parseHex b with
     | some m, some u, some b =>
-      if s.closed then (s, s!"txn T rv={Err.eclosed}")
+      let keep := rest == ["1"]
+      let m := m.take (Nng.Driver.HttpConn.params.methMax)
+      -- a fresh request is HTTP/1.1 without body; a kept one carries the version of the last response read on the
+      -- connection (the connection object has ONE version field) and keeps its body unless a new one is given
+      let vers := if keep then s.vers else Nng.HttpSrv.asc "HTTP/1.1"
+      let body := if b.isEmpty then (if keep then s.cbody else []) else b
+      let s1 := { s with method := m, vers := vers, cbody := body }
+      if s.closed then (s1, s!"txn T rv={Err.eclosed}")
       else
-        let m := m.take (Nng.Driver.HttpConn.params.methMax)
-        let (s2, evs) := cliProgress { s with method := m }
-        (s2, joinEv "txn" (s!"W {toHex (HttpCliSpec.request m u (Nng.HttpSrv.asc "h") b)}" :: evs))
+        let (s2, evs) := cliProgress s1
+        (s2, joinEv "txn" (s!"W {toHex (HttpCliSpec.request m u (Nng.HttpSrv.asc "h") vers body)}" :: evs))
     | _, _, _ => (s, "bad-op")
   | "rx", [hex] =>
     match parseHex hex with
@@ -295,7 +307,8 @@ def step (s : SState) (ws : List String) : SState × String :=
   match ws with
   | ["verbose"] => (s, "ok")
   | ["srv"] => ({ live := true }, "srv rv=0")
-  | ["cli"] => ({ s with conn := false, cli := true, stream := [], active := false, closed := false, eof := false }, "cli ok")
+  | ["cli"] => ({ s with conn := false, cli := true, stream := [], active := false, closed := false, eof := false, cbody := [],
+                         vers := Nng.HttpSrv.asc "HTTP/1.1" }, "cli ok")
   | "txn" :: args => if s.cli then cliStep s "txn" args else (s, "no-cli")
   | op :: args =>
     if s.cli && (op == "rx" || op == "eof") then cliStep s op args else
